@@ -52,7 +52,8 @@ RULE = ("random process sets (as C01) entered through three independent route as
         "which is one more equivalent way of specifying the same model; 8-12 states / parameters / events in some cases")
 ASSUMPTIONS = ["expression identity decided by exact evaluation at 2 random rational points (50 digits)",
                "input forms the unchanged pygom rejects with an error (pymodel.ACCEPTED_FORMS lists the accepted ones) are tagged, not judged"]
-TRUSTED = ["harness generator / printer / interpreter", "Lean driver JSON codec"]
+TRUSTED = ["harness generator / printer / interpreter", "Lean driver JSON codec",
+           "natural-precedence printer exprs.user_str (checked on every case it is used for against Python's own parser)"]
 
 THEN_OF = {"event": "add_event", "transition": "add_transition", "birth_death": "add_birth_death", "ode": "add_ode"}
 
